@@ -14,17 +14,90 @@ pub fn prop() -> Prop {
 
 fn spec() -> Spec {
     Spec {
-        kinds: vec![Kind { name: "sampler", quick: 20_000, thorough: 500_000, serial: false }],
-        rule: "each case = one constraint set with per-joint (from,to) in [-2pi,2pi] of classes from<to, from>to straddling zero, from>to both positive, from>to both negative, from==to, limits at +-2pi; 500 draws of random_angles() per set (cases run on 16 threads, the library RNG is thread-local); every draw is judged by the reference arc oracle and by the library's own compliant(); non-trivial = set contains at least one wrap-around joint; distinct = hash(from,to)",
+        kinds: vec![Kind { name: "sampler", quick: 20_000, thorough: 500_000, serial: false }, Kind { name: "through_planner", quick: 300, thorough: 10_000, serial: false }],
+        rule: "each case = one constraint set with per-joint (from,to) in [-2pi,2pi] of classes from<to, from>to straddling zero, from>to both positive, from>to both negative, from==to, limits at +-2pi; 500 draws of random_angles() per set (cases run on 16 threads, the library RNG is thread-local); every draw is judged by the reference arc oracle and by the library's own compliant(); through_planner: the sampler as the RRT planner drives it (synthetic cell, collision checks on, limits with wrap-around ranges that contain start and goal, small try budget): no panic (and, with non-wrapping limits, every node of a returned path is accepted by the limits). non-trivial = set contains at least one wrap-around joint; distinct = hash(from,to)",
         assumptions: vec![
             "draws within 1e-9 rad of an arc end are inconclusive",
             "from > to with from == to (mod 2pi) describes no arc of positive width and is not generated",
         ],
-        minimums: vec![("oracle_evals", 40_000_000, 1_000_000_000), ("wrap_both_positive_joints", 8_000, 200_000), ("wrap_both_negative_joints", 8_000, 200_000)],
+        minimums: vec![("oracle_evals", 40_000_000, 1_000_000_000), ("wrap_both_positive_joints", 8_000, 200_000), ("wrap_both_negative_joints", 8_000, 200_000), ("planner.calls", 250, 8_000)],
     }
 }
 
-fn run_case(_kind: &str, idx: u64, rng: &mut Rng, mon: &mut Mon, _tier: Tier) {
+/// The sampler as the joint-space planner uses it: wrap-around ranges reach it through plan_rrt.
+fn through_planner(idx: u64, rng: &mut Rng, mon: &mut Mon) {
+    use crate::cell::Cell;
+    use std::sync::atomic::AtomicBool;
+    let mut cell = Cell::generate(rng, idx, true, true, false);
+    let free = cell.build();
+    let mut posture = |rng: &mut Rng| -> Option<[f64; 6]> {
+        for _ in 0..20 {
+            let t = crate::props::c10::gen_posture(rng);
+            let q = cell.robot.rp.from_theta(&t);
+            let q: [f64; 6] = std::array::from_fn(|j| q[j].max(-2.8).min(2.8));
+            if !free.collides(&q) {
+                return Some(q);
+            }
+        }
+        None
+    };
+    let (start, goal) = match (posture(rng), posture(rng)) {
+        (Some(a), Some(b)) => (a, b),
+        _ => {
+            mon.inconclusive("through_planner:no-free-postures");
+            return;
+        }
+    };
+    // per joint: an ordinary range or its wrap-around spelling, both containing start and goal
+    let (mut from, mut to) = ([0.0; 6], [0.0; 6]);
+    let mut wraps = 0;
+    for j in 0..6 {
+        let (lo, hi) = (start[j].min(goal[j]) - rng.range(0.05, 0.3), start[j].max(goal[j]) + rng.range(0.05, 0.3));
+        if rng.bool(0.5) {
+            // the same arc written with both limits in (0, 2pi] or shifted so that from > to
+            let f = lo.rem_euclid(2.0 * PI);
+            let t = hi.rem_euclid(2.0 * PI);
+            from[j] = f;
+            to[j] = t;
+            if f > t {
+                wraps += 1;
+            }
+        } else {
+            from[j] = lo;
+            to[j] = hi;
+        }
+    }
+    cell.constraints = Constraints::new(from, to, 0.0);
+    if !cell.constraints.compliant(&start) || !cell.constraints.compliant(&goal) {
+        mon.inconclusive("through_planner:limits-do-not-contain-the-endpoints");
+        return;
+    }
+    let robot = cell.build();
+    let planner = rs_opw_kinematics::rrt::RRTPlanner { step_size_joint_space: rng.range(3.0f64, 10.0).to_radians(), max_try: 20 + rng.usize(60), debug: false };
+    let stop = AtomicBool::new(false);
+    mon.count("planner.calls");
+    if wraps > 0 {
+        mon.count("planner.calls_with_wrap_around_ranges");
+        mon.nontrivial(hash_f64s(&[from, to, start, goal].concat()));
+    }
+    match guarded(|| planner.plan_rrt(&start, &goal, &robot, &stop)) {
+        Err(msg) => mon.violation("sampler-panic:through-planner", "the planner's sampling of the constraints panicked for limits describing arcs of positive width", json!({"from": jf(&from), "to": jf(&to), "start": jf(&start), "goal": jf(&goal), "panic": msg})),
+        Ok(Ok(path)) => {
+            // (node legality is promised for non-wrapping limits only, C13)
+            if let Some(bad) = path.iter().find(|n| wraps == 0 && !cell.constraints.compliant(n)) {
+                mon.violation("planner-node-rejected-by-the-constraints", "a node of the returned path is not accepted by the constraints the planner sampled from", json!({"from": jf(&from), "to": jf(&to), "node": jf(bad)}));
+            } else {
+                mon.held_n(path.len() as u64);
+            }
+        }
+        Ok(Err(_)) => mon.held(),
+    }
+}
+
+fn run_case(kind: &str, idx: u64, rng: &mut Rng, mon: &mut Mon, _tier: Tier) {
+    if kind == "through_planner" {
+        return through_planner(idx, rng, mon);
+    }
     let mut from = [0.0; 6];
     let mut to = [0.0; 6];
     let mut classes = vec![];
@@ -45,10 +118,15 @@ fn run_case(_kind: &str, idx: u64, rng: &mut Rng, mon: &mut Mon, _tier: Tier) {
                 let f = rng.range(-5.0, -0.05);
                 (f, rng.range(-2.0 * PI, f - 0.05), "wrap_both_negative")
             }
-            4 => {
-                let v = rng.range(-2.0 * PI, 2.0 * PI);
-                (v, v, "from==to")
-            }
+            4 => match rng.usize(4) {
+                // zeros of opposite sign are equal numbers: from == to, the joint is unconstrained
+                0 => (-0.0, 0.0, "from==to"),
+                1 => (0.0, -0.0, "from==to"),
+                _ => {
+                    let v = rng.range(-2.0 * PI, 2.0 * PI);
+                    (v, v, "from==to")
+                }
+            },
             5 => (rng.range(0.05, 2.0 * PI), 0.0, "wrap_to_zero"),
             // arcs of positive but tiny width: a few ulps up to a nanoradian, plain or wrapping through 0
             7 => {
